@@ -131,6 +131,11 @@ func goalDelivered(r *rig) bool { return r.c03Goal() == "" }
 
 // ---------------------------------------------------------------- C08
 
+func damageFirst(c rigConf) rigConf {
+	c.DamageFirst = true
+	return c
+}
+
 func minAge(c rigConf, d time.Duration) rigConf {
 	c.MinAge = d
 	return c
@@ -149,15 +154,18 @@ func TestC08Env(t *testing.T) {
 	if vh.Thorough() {
 		maxDev = 3
 	}
+	rewrites := func(r *rig) { r.fileOps = []string{"rewrite"} }
 	for _, sc := range []struct {
-		name string
-		conf rigConf
-	}{{"3 files, 2 threads", confTwoThreads()}, {"2 files, 1 thread", confOneThread()}, {"2 files, 1 thread, daemon", asDaemon(confOneThread())},
-		{"3 files, 2 threads, source files read slowly (payloads of the two threads encoded at the same time)", slowReads(confTwoThreads())}} {
+		name  string
+		conf  rigConf
+		setup func(r *rig)
+	}{{"3 files, 2 threads", confTwoThreads(), nil}, {"2 files, 1 thread", confOneThread(), nil}, {"2 files, 1 thread, daemon", asDaemon(confOneThread()), nil},
+		{"3 files, 2 threads, source files read slowly (payloads of the two threads encoded at the same time)", slowReads(confTwoThreads()), nil},
+		{"3 files, 2 threads, a file rewritten after it was hashed (its parts are dropped from a failed payload)", confTwoThreads(), rewrites}} {
 		sc := sc
 		e := &vh.Env{Rep: rep, Scenario: sc.name, MaxDev: maxDev,
 			Run: func(plan []vh.Deviation) vh.EnvRun {
-				return envRun(sc.conf, plan, nil, goalDelivered, func(r *rig) (string, string, string) {
+				return envRun(sc.conf, plan, sc.setup, goalDelivered, func(r *rig) (string, string, string) {
 					if v := r.c08Wire(); v != "" {
 						cl := ""
 						if strings.Contains(v, "the sender sent") {
@@ -183,6 +191,12 @@ func TestC08Env(t *testing.T) {
 					return pick(ev.Menu, "refuse", "lost", "gkfail:", "cut:", "stop-n")
 				case "recovery":
 					return pick(ev.Menu, "refuse", "lost", "stop-n")
+				case "persist":
+					// (only in the scenario that allows file changes) the cache write follows the hashing:
+					// a file rewritten now is transmitted with stale metadata and found changed afterwards
+					if len(plan) == 0 {
+						return pick(ev.Menu, "file:rewrite:")
+					}
 				}
 				return nil
 			},
@@ -349,6 +363,7 @@ func TestC16Env(t *testing.T) {
 		esc("3 files, 2 threads, daemon", asDaemon(confTwoThreads()), nil),
 		esc("3 files, 2 threads, one-shot", confTwoThreads(), nil),
 		esc("8 files, 1 thread, daemon (pipeline fills up)", asDaemon(confManyFiles()), nil),
+		{"8 files, 1 thread, daemon, every part damaged in transit once (every file fails validation once; one deviation less)", damageFirst(asDaemon(confManyFiles())), nil, d - 1},
 	}
 	for i := range scs {
 		scs[i].conf.Horizon = 20 * time.Minute
@@ -496,6 +511,11 @@ func TestC02Env(t *testing.T) {
 			r.fileOps = []string{"rewrite"}
 			r.preload = []preloaded{{Name: "g/a", Data: "older version of a", AgeH: 30}}
 		}),
+		{"2 files, delete, receiver holds older versions of both; the two-chunk file is rewritten while in flight (one deviation)", confOneThread(), func(r *rig) {
+			armC02(r)
+			r.fileOps = []string{"rewrite"}
+			r.preload = []preloaded{{Name: "g/a", Data: "older version of a", AgeH: 30}, {Name: "g/b", Data: "older version of b", AgeH: 29}}
+		}, 1},
 	}
 	for i := range scs {
 		scs[i].conf.Horizon = 10 * time.Minute
@@ -921,7 +941,15 @@ func TestC04Env(t *testing.T) {
 	cron := confOneGroup()
 	cron.Rerun = true
 	dm := asDaemon(confOneGroup())
-	scs := []envScenario{esc("4 files of one group, 2 threads, one-shot invoked every minute", cron, nil), esc("4 files of one group, 2 threads, daemon", dm, nil)}
+	// a small first file and a successor that is sent in several chunks on two connections
+	big := asDaemon(confOneGroup())
+	big.Files = []rigFile{
+		{Name: "g/a", Data: strings.Repeat("A", 10), Age: 400},
+		{Name: "g/b", Data: strings.Repeat("B", 70), Age: 300},
+		{Name: "g/c", Data: strings.Repeat("C", 14), Age: 200},
+	}
+	scs := []envScenario{esc("4 files of one group, 2 threads, one-shot invoked every minute", cron, nil), esc("4 files of one group, 2 threads, daemon", dm, nil),
+		esc("3 files of one group, the second one in several chunks, 2 threads, daemon", big, nil)}
 	runEnvProperty(t, "C04", "order of delivery end to end under faults and restarts (E-ENV)", scs, d,
 		func(ev vh.EnvEvent, plan []vh.Deviation) []string { return faultAlts(ev, true) },
 		func(r *rig) (string, string, string) {
@@ -936,7 +964,7 @@ func TestC04Env(t *testing.T) {
 			}
 			return "", "", fmt.Sprintf("log=%d", len(r.recvLogRecords()))
 		},
-		"four files of one ordered (fifo) group sent on two threads; all plans with <= 2 deviations over request failures (refused, answer lost, receiver error / cut at part k, corrupted part), receiver restart and sender crash at data and poll requests; oracle: receive-log order = age order, every announced predecessor is the immediately preceding file unless that one is known to be delivered, everything delivered in the end")
+		"four files of one ordered (fifo) group sent on two threads (and three files whose second one is sent in several chunks); all plans with <= 2 deviations over request failures (refused, answer lost, receiver error / cut at part k, corrupted part), receiver restart and sender crash at data and poll requests; oracle: receive-log order = age order, every announced predecessor is the immediately preceding file unless that one is known to be delivered, everything delivered in the end")
 }
 
 func TestC01Env(t *testing.T) {
